@@ -71,6 +71,9 @@
 #include <utility>
 #include <vector>
 
+// harness/c14_member.cpp (second translation unit): the ops `mem` and `mems` (member operators on objects in one memory)
+std::string c14_member_handle(std::vector<std::string> const &);
+
 namespace
 {
 namespace fm = fcppt::math;
@@ -1338,6 +1341,8 @@ std::string handle(std::vector<std::string> const &t)
       return bits_op(t);
     if (t[0] == "det0" && t.size() == 1)
       return det0_op();
+    if (t[0] == "mem" || t[0] == "mems")
+      return c14_member_handle(t);
     return "bad-op";
   }
   catch (std::exception const &)
